@@ -1287,7 +1287,9 @@ fn fam_random<T: Payload>(c: &Case, cx: &mut Ctx) -> Outcome {
     // spare handles so that futures/streams can borrow one and drops do not disconnect by accident
     sc.mexec(Op::CloneS(rng.chance(1, 2)));
     sc.mexec(Op::CloneR(rng.chance(1, 2)));
-    let nsteps = 5 + rng.below(12) as usize;
+    // some scripts pile up many waiters (the wait list starts with room for 4 or 8 entries and then grows)
+    let maxlive = 2 + rng.below(7) as usize;
+    let nsteps = 5 + rng.below(12) as usize + if maxlive > 4 { 8 } else { 0 };
     // most scripts lean to one side so that the wait list grows to three or four entries of one kind
     let bias = rng.below(3); // 0 receivers, 1 senders (buffer filled first), 2 mixed
     if bias == 1 {
@@ -1300,7 +1302,7 @@ fn fam_random<T: Payload>(c: &Case, cx: &mut Ctx) -> Outcome {
         // reap workers that have returned
         live.retain(|w| !sc.worker_finished(*w));
         let r = rng.below(100);
-        if r < 30 && live.len() < 4 && !closed {
+        if r < (if maxlive > 4 { 45 } else { 30 }) && live.len() < maxlive && !closed {
             // a new waiter
             let recv_side = match bias {
                 0 => rng.chance(5, 6),
